@@ -58,6 +58,9 @@ pub(super) async fn run_loop<C>(
         return;
     }
 
+    #[cfg(mpd_client_verif)]
+    mpd_protocol::verif::emit("loop_start", &[]);
+
     let mut state = State {
         loop_state: LoopState::Idling,
         connection,
@@ -76,6 +79,8 @@ pub(super) async fn run_loop<C>(
         }
     }
 
+    #[cfg(mpd_client_verif)]
+    mpd_protocol::verif::emit("loop_exit", &[]);
     trace!("exited run_loop");
 }
 
@@ -94,9 +99,13 @@ where
             // state change notification.
             tokio::select! {
                 response = state.connection.receive() => {
+                    #[cfg(mpd_client_verif)]
+                    mpd_protocol::verif::emit("sel_reply", &[]);
                     handle_idle_response(&mut state, response).await?;
                 }
                 command = state.commands.recv() => {
+                    #[cfg(mpd_client_verif)]
+                    mpd_protocol::verif::emit("sel_command", &[("some", command.is_some() as i64)]);
                     handle_command(&mut state, command).await?;
                 }
             }
@@ -106,6 +115,8 @@ where
 
             let response = state.connection.receive().await.transpose().ok_or(())?;
             trace!("response to command received");
+            #[cfg(mpd_client_verif)]
+            mpd_protocol::verif::emit("reply_forwarded", &[("ok", response.is_ok() as i64)]);
 
             let _ = responder.send(response.map_err(Into::into));
 
@@ -114,6 +125,8 @@ where
             // See if we can immediately send the next command
             match next_command.await {
                 Ok(Some((command, responder))) => {
+                    #[cfg(mpd_client_verif)]
+                    mpd_protocol::verif::emit("next_immediate", &[]);
                     trace!(?command, "next command immediately available");
                     match state.connection.send_list(command).await {
                         Ok(_) => state.loop_state = LoopState::WaitingForCommandReply(responder),
@@ -126,6 +139,8 @@ where
                 }
                 Ok(None) => return Err(()),
                 Err(_) => {
+                    #[cfg(mpd_client_verif)]
+                    mpd_protocol::verif::emit("next_timeout", &[]);
                     trace!("reached next command timeout, idling");
 
                     // Start idling again
@@ -193,6 +208,9 @@ where
         }
     }
 
+    #[cfg(mpd_client_verif)]
+    mpd_protocol::verif::emit("noidle_reply", &[]);
+
     // Actually send the command. This sets the state for the next loop
     // iteration.
     match state.connection.send_list(command).await {
@@ -204,6 +222,8 @@ where
         }
     }
 
+    #[cfg(mpd_client_verif)]
+    mpd_protocol::verif::emit("request_sent", &[]);
     trace!("command sent successfully");
     Ok(())
 }
@@ -237,6 +257,8 @@ where
                 }
             }
 
+            #[cfg(mpd_client_verif)]
+            mpd_protocol::verif::emit("idle_reply_handled", &[]);
             if let Err(e) = state.connection.send(idle()).await {
                 error!(error = ?e, "failed to start idling after state change");
                 let _ = state
